@@ -5,7 +5,7 @@
    ct : the Content-Type decisions of stdlib email (any function);
    c  : the MessageContent the parse builds (it always builds one). *)
 From PV Require Import Base.Prelude Base.Decimal
-     Mime.Lines Mime.Parts Mime.LinesProofs Mime.PartsProofs.
+     Mime.Lines Mime.Parts Mime.Fields Mime.LinesProofs Mime.PartsProofs Mime.FieldsProofs.
 
 (* the line index tiles the literal: contiguous from 0 to len(d), the spans
    concatenate to d, no line text contains LF and every terminator is LF,
@@ -65,13 +65,11 @@ Theorem C03_fetch_roundtrip : forall d ct c o rest,
 Proof. exact st_fetch_roundtrip. Qed.
 Print Assumptions C03_fetch_roundtrip.
 
-(* octets announced for the part numbered p (RFC 3501 numbering of the
-   printed structure) = len(BODY[p.MIME]) + len(BODY[p]), to any depth, when
-   no part is message/rfc822 (see C03_part_numbering_refuted) and every
-   multipart has a parsed sub-part (see C03_empty_multipart_refuted) *)
+(* octets announced for the part numbered p (RFC 3501 6.4.5 numbering of the
+   announced structure, through multipart and message/rfc822 to any depth)
+   = len(BODY[p.MIME]) + len(BODY[p]) — on every message *)
 Theorem C03_part_octets_partial : forall d ct c b p n,
-  parse d ct = Ok c -> no_rfc822 c -> no_empty_multi c -> body_structure d c = Some b ->
-  In (p, n) (rfc_parts (bs_printed b)) ->
+  parse d ct = Ok c -> body_structure d c = Some b -> In (p, n) (rfc_parts b) ->
   n = length (fetch_mime d c p) + length (fetch_body d c p).
 Proof. exact st_part_octets. Qed.
 Print Assumptions C03_part_octets_partial.
@@ -79,14 +77,13 @@ Print Assumptions C03_part_octets_partial.
 (* hence the clause of the statement for parts without a MIME header; the
    clause is false for the others (C03_part_octets_refuted, finding C03-F2) *)
 Theorem C03_part_octets : forall d ct c b p n,
-  parse d ct = Ok c -> no_rfc822 c -> no_empty_multi c -> body_structure d c = Some b ->
-  In (p, n) (rfc_parts (bs_printed b)) -> fetch_mime d c p = [] ->
-  n = length (fetch_body d c p).
+  parse d ct = Ok c -> body_structure d c = Some b -> In (p, n) (rfc_parts b) ->
+  fetch_mime d c p = [] -> n = length (fetch_body d c p).
 Proof. exact st_part_octets_no_header. Qed.
 Print Assumptions C03_part_octets.
 
-(* in the section numbering of _get_subpart itself the size computed for the
-   node reached is len(BODY[p.MIME]) + len(BODY[p]) on every tree *)
+(* for whatever node a section reaches: the size computed for it is
+   len(BODY[p.MIME]) + len(BODY[p]) *)
 Theorem C03_part_octets_walk : forall d ct c p s n,
   parse d ct = Ok c -> p <> [] -> get_subpart c p = Some s ->
   node_announced d s = Some n ->
@@ -97,30 +94,96 @@ Print Assumptions C03_part_octets_walk.
 (* finding C03-F2: the announced octets include the part's own header *)
 Theorem C03_part_octets_refuted :
   exists d ct c b p n,
-    parse d ct = Ok c /\ no_rfc822 c /\ no_empty_multi c /\ body_structure d c = Some b
-    /\ In (p, n) (rfc_parts (bs_printed b)) /\ n <> length (fetch_body d c p).
+    parse d ct = Ok c /\ body_structure d c = Some b
+    /\ In (p, n) (rfc_parts b) /\ n <> length (fetch_body d c p).
 Proof. exact st_part_octets_refuted. Qed.
 Print Assumptions C03_part_octets_refuted.
 
-(* finding C03-F4: through message/rfc822 the section numbers of
-   _get_subpart are not those of RFC 3501 *)
-Theorem C03_part_numbering_refuted :
-  exists d ct c b p n,
-    parse d ct = Ok c /\ no_empty_multi c /\ body_structure d c = Some b
-    /\ In (p, n) (rfc_parts (bs_printed b))
-    /\ n <> length (fetch_mime d c p) + length (fetch_body d c p).
-Proof. exact st_part_numbering_refuted. Qed.
-Print Assumptions C03_part_numbering_refuted.
+(* numbering through message/rfc822 (findings C03-F4/F5 repaired): the
+   enclosed message is part 1, its body part 1.1 *)
+Theorem C03_part_numbering_example :
+  exists c b, parse wit_rfc wit_rfc_ct = Ok c /\ body_structure wit_rfc c = Some b
+    /\ rfc_parts b = [([1], 11); ([1; 1], 6)]
+    /\ fetch_mime wit_rfc c [1] = [67; 58; 109; 10; 10]%N
+    /\ fetch_body wit_rfc c [1] = [83; 58; 105; 10; 10; 120]%N
+    /\ fetch_header wit_rfc c [1] = [83; 58; 105; 10; 10]%N
+    /\ fetch_text wit_rfc c [1] = [120]%N
+    /\ fetch_mime wit_rfc c [1; 1] = [83; 58; 105; 10; 10]%N
+    /\ fetch_body wit_rfc c [1; 1] = [120]%N.
+Proof. exact ex_rfc_ok. Qed.
+Print Assumptions C03_part_numbering_example.
 
-(* finding C03-F5: a multipart without parsed sub-part is printed with an
-   empty part 1 while BODY[1] returns the body of the multipart itself *)
-Theorem C03_empty_multipart_refuted :
-  exists d ct c b p n,
-    parse d ct = Ok c /\ no_rfc822 c /\ body_structure d c = Some b
-    /\ In (p, n) (rfc_parts (bs_printed b))
-    /\ n <> length (fetch_mime d c p) + length (fetch_body d c p).
-Proof. exact st_empty_multipart_refuted. Qed.
-Print Assumptions C03_empty_multipart_refuted.
+(* line count announced for the message = number of LF octets of the whole
+   literal (header lines included) *)
+Theorem C03_lines_announced : forall d ct c,
+  parse d ct = Ok c -> lines_of c = Z.of_nat (count_lf d).
+Proof. exact st_lines_top. Qed.
+Print Assumptions C03_lines_announced.
+
+(* finding C03-F6: it is not the number of lines of BODY[1] *)
+Theorem C03_lines_refuted :
+  exists d ct c n l,
+    parse d ct = Ok c /\ body_structure d c = Some (BsText n l)
+    /\ l <> Z.of_nat (count_lf (fetch_body d c [1])).
+Proof. exact st_lines_refuted. Qed.
+Print Assumptions C03_lines_refuted.
+
+(* RFC822 = d; RFC822.HEADER / RFC822.TEXT are BODY[HEADER] / BODY[TEXT] and
+   concatenate to d *)
+Theorem C03_rfc822_aliases : forall d ct c,
+  parse d ct = Ok c ->
+  fetch_rfc822 d c = d /\ fetch_rfc822_header d c = fetch_header d c []
+  /\ fetch_rfc822_text d c = fetch_text d c []
+  /\ fetch_rfc822_header d c ++ fetch_rfc822_text d c = d.
+Proof. exact st_rfc822_aliases. Qed.
+Print Assumptions C03_rfc822_aliases.
+
+(* BINARY[] / BINARY.SIZE[] with an identity Content-Transfer-Encoding (none,
+   7bit, 8bit, binary): the literal, its length *)
+Theorem C03_binary_full : forall d ct identity c,
+  parse d ct = Ok c -> identity c = true ->
+  fetch_binary d identity c [] = Some d /\ binary_size d identity c [] = Some (length d).
+Proof. exact st_binary_full. Qed.
+Print Assumptions C03_binary_full.
+
+(* BINARY[p] / BINARY.SIZE[p] of a part with an identity encoding = BODY[p] *)
+Theorem C03_binary_part : forall d identity c p s,
+  p <> [] -> get_subpart c p = Some s -> identity s = true ->
+  fetch_binary d identity c p = Some (fetch_body d c p)
+  /\ binary_size d identity c p = Some (length (fetch_body d c p)).
+Proof. exact st_binary_part. Qed.
+Print Assumptions C03_binary_part.
+
+(* the literal8 framing of BINARY items *)
+Theorem C03_literal8_len : forall p rest,
+  read_literal8 (print_literal8 p ++ rest) = Some (p, rest).
+Proof. exact read_print_literal8. Qed.
+Print Assumptions C03_literal8_len.
+
+(* BODY[HEADER.FIELDS (..)] / BODY[HEADER.FIELDS.NOT (..)]: the raw bytes of
+   some of the header's field groups (a field line and its continuation
+   lines), in their order, then CR LF; the field groups tile a range of the
+   header, so each is a run of consecutive header lines, verbatim *)
+Theorem C03_header_fields : forall d ct c subset inverse,
+  parse d ct = Ok c ->
+  exists gs a1 m1,
+    fetch_fields d c [] subset inverse
+      = concat (map (fun g => get_raw d [g]) gs) ++ [13%N; 10%N]
+    /\ sublist gs (find_folds d (c_hl c))
+    /\ gchain a1 (find_folds d (c_hl c)) m1
+    /\ m1 <= length (header_of d c)
+    /\ concat (map (fun g => get_raw d [g]) (find_folds d (c_hl c))) = slice d a1 m1.
+Proof. exact st_header_fields. Qed.
+Print Assumptions C03_header_fields.
+
+Theorem C03_header_fields_example :
+  exists c, parse ex_fields (fun _ => CtText) = Ok c
+    /\ fetch_fields ex_fields c [] [[66%N]] false = [98; 58; 10; 13; 10]%N
+    /\ fetch_fields ex_fields c [] [[66%N]] true = [65; 58; 49; 10; 32; 50; 10; 13; 10]%N
+    /\ fetch_fields ex_fields c [] [[122%N]] true
+       = [65; 58; 49; 10; 32; 50; 10; 98; 58; 10; 13; 10]%N.
+Proof. exact ex_fields_ok. Qed.
+Print Assumptions C03_header_fields_example.
 
 (* dict COPY / MOVE: the copy holds the same content object *)
 Theorem C03_copy_shares : forall m u,
@@ -128,25 +191,20 @@ Theorem C03_copy_shares : forall m u,
 Proof. exact dict_copy_shares. Qed.
 Print Assumptions C03_copy_shares.
 
-(* maildir APPEND / COPY / MOVE then load: verbatim provided stdlib mailbox
-   re-serialises the message unchanged (measured per message by the check) *)
-Theorem C03_maildir_verbatim : forall ser : bytes -> bytes,
-  (forall x, ser x = x) ->
-  forall lit, md_load ser (md_append ser lit) = lit
-              /\ md_load ser (md_copy ser (md_append ser lit)) = lit
-              /\ md_load ser (md_move (md_append ser lit)) = lit.
+(* maildir APPEND / COPY / MOVE then load: the literal (files are written and
+   read byte for byte; [rd] is stdlib get_bytes' os.linesep -> LF replacement,
+   the identity on POSIX) *)
+Theorem C03_maildir_verbatim : forall rd : bytes -> bytes,
+  (forall x, rd x = x) ->
+  forall lit, md_load rd (md_append lit) = lit
+              /\ md_load rd (md_copy rd (md_append lit)) = lit
+              /\ md_load rd (md_move (md_append lit)) = lit.
 Proof. exact st_maildir_verbatim. Qed.
 Print Assumptions C03_maildir_verbatim.
 
-(* finding C03-F3: it does not for a serialiser that rewrites CR LF *)
-Theorem C03_maildir_refuted :
-  exists ser lit, md_load ser (md_append ser lit) <> lit.
-Proof. exact st_maildir_refuted. Qed.
-Print Assumptions C03_maildir_refuted.
-
 (* the hypotheses of C03_part_octets hold of a real multipart message *)
 Theorem C03_part_octets_example :
-  exists c, parse ex_multi ex_multi_ct = Ok c /\ no_rfc822 c /\ no_empty_multi c
+  exists c, parse ex_multi ex_multi_ct = Ok c
             /\ body_structure ex_multi c = Some (BsMulti [BsText 8 2%Z; BsText 2 0%Z])
             /\ rfc_parts (BsMulti [BsText 8 2%Z; BsText 2 0%Z]) = [([1], 8); ([2], 2)]
             /\ fetch_body ex_multi c [1] = [104; 105; 10]%N
